@@ -444,6 +444,16 @@ func (r *Run) hostCall(o *HostObj, method string, args []Value) Value {
 	switch o.Kind {
 	case "ctx":
 		return r.ctxCall(o.Data.(*ctxObj), method, args)
+	case "grpcstatus":
+		st := o.Data.(*grpcStatus)
+		switch method {
+		case "Error":
+			return Str(fmt.Sprintf("rpc error: code = %d desc = %s", st.code, st.msg))
+		case "GRPCStatus":
+			cell := new(Value)
+			*cell = &HostObj{Kind: "grpcstatusval", Data: st}
+			return Ptr(cell)
+		}
 	case "fileinfo", "direntry":
 		fi := o.Data.(*fileInfo)
 		switch method {
